@@ -639,7 +639,7 @@ func c02ParamTableFidelity(c *Ctx) {
 		r.Unres("R02i", "_http.pb.go", "", "unit root not found")
 		return
 	}
-	ex := c.Explore(ri.Fn, 1, 4000)
+	ex := c.ExploreT(ri.Fn, 4000)
 	type bad struct{ pos, msg string }
 	bads := map[string]bad{}
 	n := 0
